@@ -189,6 +189,7 @@ func (tr data.Trie) Update(key []byte, value []byte) (err error)
   assigns  elems(tcell(tr, str(key)))
 
 func (adb *AccountsDB) updateOldCodeEntry(oldCodeHash []byte) (e *CodeEntry, err error)
+  holds    mutOp      // private: every caller holds the accounts mutex (guarded_by declared in the C09/C10 block)
   requires wired: !isNil(adb.mainTrie) && !isNil(adb.marshalizer)
   ensures  absent-untouched: err == nil && !old(entryPresent(adb.mainTrie, str(oldCodeHash))) ==> e == nil && tcell(adb.mainTrie, str(oldCodeHash))[0] == old(tcell(adb.mainTrie, str(oldCodeHash))[0])
   ensures  last-reference-deletes: err == nil && old(entryPresent(adb.mainTrie, str(oldCodeHash))) && old(entryRefs(adb.mainTrie, str(oldCodeHash))) <= 1 ==> !entryPresent(adb.mainTrie, str(oldCodeHash))
@@ -201,6 +202,7 @@ func (adb *AccountsDB) updateOldCodeEntry(oldCodeHash []byte) (e *CodeEntry, err
   assigns  elems(tcell(adb.mainTrie, str(oldCodeHash)))
 
 func (adb *AccountsDB) updateNewCodeEntry(newCodeHash []byte, newCode []byte) (err error)
+  holds    mutOp      // private: every caller holds the accounts mutex (guarded_by declared in the C09/C10 block)
   requires wired: !isNil(adb.mainTrie) && !isNil(adb.marshalizer)
   ensures  no-code-nothing-to-do: len(newCode) == 0 ==> err == nil && tcell(adb.mainTrie, str(newCodeHash))[0] == old(tcell(adb.mainTrie, str(newCodeHash))[0])
   ensures  created-with-one: err == nil && len(newCode) != 0 && !old(entryPresent(adb.mainTrie, str(newCodeHash))) ==>
@@ -265,6 +267,7 @@ spec fn jidx(k int) int
   axiom jidx(k) == k
 
 func (adb *AccountsDB) journalize(entry JournalEntry)
+  holds    mutOp      // private: every caller holds the accounts mutex (guarded_by declared in the C09/C10 block)
   ensures  nil-entry-ignored: isNil(entry) ==> adb.entries == old(adb.entries)
   ensures  appended-last: !isNil(entry) ==> len(adb.entries) == old(len(adb.entries)) + 1 && adb.entries[jidx(old(len(adb.entries)))] == entry
   ensures  earlier-entries-kept: forall k :: 0 <= k && k < old(len(adb.entries)) ==> adb.entries[jidx(k)] == old(adb.entries[jidx(k)])
@@ -307,6 +310,7 @@ func (ba *baseAccount) HasNewCode() (r bool)
   assigns  nothing
 
 func (adb *AccountsDB) saveCode(newAcc baseAccountHandler, oldAcc baseAccountHandler) (err error)
+  holds    mutOp      // private: every caller holds the accounts mutex (guarded_by declared in the C09/C10 block)
   requires wired: !isNil(adb.mainTrie) && !isNil(adb.marshalizer) && !isNil(adb.hasher)
   requires accounts-are-user-accounts: isUser(newAcc) && (isNil(oldAcc) || isUser(oldAcc))
   ensures  no-new-code-nothing-to-do: !old(payload(newAcc, ptr_state.userAccount).baseAccount.hasNewCode) ==> err == nil && len(adb.entries) == old(len(adb.entries))
@@ -354,6 +358,7 @@ func (adb *AccountsDB) saveCode(newAcc baseAccountHandler, oldAcc baseAccountHan
 
 /*@
 func (adb *AccountsDB) removeCode(baseAcc baseAccountHandler) (err error)
+  holds    mutOp      // private: every caller holds the accounts mutex (guarded_by declared in the C09/C10 block)
   requires wired: !isNil(adb.mainTrie) && !isNil(adb.marshalizer)
   requires account-is-user-account: isUser(baseAcc)
   ensures  absent-untouched: err == nil && !old(entryPresent(adb.mainTrie, uaCodeHash(baseAcc))) ==> tcell(adb.mainTrie, uaCodeHash(baseAcc))[0] == old(tcell(adb.mainTrie, uaCodeHash(baseAcc))[0])
@@ -518,6 +523,7 @@ func (adb *AccountsDB) getAccount(address []byte) (a vmcommon.AccountHandler, er
   assigns  nothing
 
 func (adb *AccountsDB) saveAccountToTrie(accountHandler vmcommon.AccountHandler) (err error)
+  holds    mutOp      // private: every caller holds the accounts mutex (guarded_by declared in the C09/C10 block)
   requires wired: !isNil(adb.mainTrie) && !isNil(adb.marshalizer) && !isNil(accountHandler)
   ensures  failure-changes-nothing: err != nil ==> tcell(adb.mainTrie, str(accountHandler.AddressBytes()))[0] == old(tcell(adb.mainTrie, str(accountHandler.AddressBytes()))[0])
   assigns  elems(tcell(adb.mainTrie, str(accountHandler.AddressBytes())))
@@ -543,6 +549,7 @@ func (adb *AccountsDB) removeDataTrie(baseAcc baseAccountHandler) (err error)
 
 /*@
 func (adb *AccountsDB) removeCodeAndDataTrie(acnt vmcommon.AccountHandler) (err error)
+  holds    mutOp      // private: every caller holds the accounts mutex (guarded_by declared in the C09/C10 block)
   requires wired: !isNil(adb.mainTrie) && !isNil(adb.marshalizer) && !isNil(adb.obsoleteDataTrieHashes)
   requires user-account: isUserAcc(acnt)
   // C07 on the removal path: the entry under the removed account's code hash loses exactly one reference
@@ -641,6 +648,7 @@ func (t DataTrieTracker) ClearDataCaches()
   assigns  payload(t, ptr_state.TrackableDataTrie).dirtyData
 
 func (adb *AccountsDB) saveDataTrie(accountHandler baseAccountHandler) (err error)
+  holds    mutOp      // private: every caller holds the accounts mutex (guarded_by declared in the C09/C10 block)
   requires wired: !isNil(adb.mainTrie) && !isNil(adb.dataTries)
   requires user-account-with-tracker: hasTracker(accountHandler)
   ensures  nothing-dirty-nothing-to-do: old(len(payload(uaTracker(accountHandler), ptr_state.TrackableDataTrie).dirtyData)) == 0 ==> err == nil && adb.entries == old(adb.entries) && len(adb.entries) == old(len(adb.entries))
@@ -664,6 +672,7 @@ loop 1
   // is updated in the loop (solvers answer unknown); the bounded stand-in covers it (a wrong pre-image breaks the revert).
 
 func (adb *AccountsDB) saveCodeAndDataTrie(oldAcc vmcommon.AccountHandler, newAcc vmcommon.AccountHandler) (err error)
+  holds    mutOp      // private: every caller holds the accounts mutex (guarded_by declared in the C09/C10 block)
   requires wired: !isNil(adb.mainTrie) && !isNil(adb.marshalizer) && !isNil(adb.hasher) && !isNil(adb.dataTries)
   requires user-accounts: isUserAcc(newAcc) && typeIs(payload(newAcc, ptr_state.userAccount).baseAccount.dataTrieTracker, ptr_state.TrackableDataTrie)
              && payload(payload(newAcc, ptr_state.userAccount).baseAccount.dataTrieTracker, ptr_state.TrackableDataTrie) != nil && (isNil(oldAcc) || isUserAcc(oldAcc))
